@@ -8,6 +8,7 @@ import (
 	"github.com/aperturerobotics/util/commonprefix"
 	"github.com/aperturerobotics/util/padding"
 	"github.com/aperturerobotics/util/prng"
+	"github.com/aperturerobotics/util/zzverif/vsched"
 	"verifharness/eng"
 )
 
@@ -348,6 +349,45 @@ func init() {
 				}
 				rep.Class(fmt.Sprint("seed", si))
 			}
+		},
+	})
+}
+
+func init() {
+	eng.Register(&eng.Scenario{
+		Name: "prng-concurrent", Props: []string{"C19"}, MustFinish: true, ObsNames: stdObs,
+		Doc:   "prng: three goroutines build sources / readers for different seed data at the same time (the functions share no documented state): each gets exactly the stream a sequential build of its seed gives",
+		Quick: eng.Bounds{PB: 2}, Thorough: eng.Bounds{PB: 3},
+		Body: func() {
+			seeds := [][]byte{[]byte("seed-a"), []byte("seed-b"), nil}
+			var want [3][2]uint64
+			for i, sd := range seeds {
+				src := prng.BuildSeededRand(sd)
+				want[i] = [2]uint64{src.Uint64(), src.Uint64()}
+			}
+			for i := range seeds {
+				i := i
+				T("G", func() {
+					src := prng.BuildSeededRand(seeds[i])
+					a, b := src.Uint64(), src.Uint64()
+					if a != want[i][0] || b != want[i][1] {
+						fail("C19.prng-seed", "a source built for seed %d while other goroutines build sources for other seeds differs from the source a sequential build gives", i)
+					}
+					buf := make([]byte, 8)
+					rd := prng.BuildSeededReader(seeds[i])
+					if _, err := io.ReadFull(rd, buf); err != nil {
+						fail("C19.prng-error", "%v", err)
+					}
+					var v uint64
+					for j := 0; j < 8; j++ {
+						v |= uint64(buf[j]) << (8 * j)
+					}
+					if v != want[i][0] {
+						fail("C19.prng-seed", "a reader built for seed %d concurrently with other builds differs from the sequential stream", i)
+					}
+				})
+			}
+			vsched.Settle()
 		},
 	})
 }
